@@ -147,7 +147,11 @@ class AttributeSet:
             Undefined attribute values may have undefined contents; they will
             _usually_ be ``NaN`` or similar, but this is not fully guaranteed.
         """
-        return self.arrow().to_numpy()
+        arr = self.arrow()
+        if pa.types.is_dictionary(arr.type):
+            # a chunked dictionary array decodes its null slots to arbitrary dictionary values
+            arr = arr.cast(arr.type.value_type)
+        return arr.to_numpy()
 
     def arrow(self) -> pa.Array[Any] | pa.ChunkedArray[Any]:
         """
